@@ -903,6 +903,7 @@ func (c *Ctx) c07Totality(r *Report, prefix string) {
 		ExactLenParam: -1,
 		LenDom:        map[string][2]int64{"concatenatedNonce": {1, 512}, "diffieHellmanSharedKey": {1, 512}},
 		NonNil:        map[string]bool{"ikesaKey": true, "ikesaKey.EncrInfo": true, "ikesaKey.IntegInfo": true, "ikesaKey.PrfInfo": true, "ikesaKey.DhInfo": true},
+		Rel:           prfPlusLenRel,
 	}
 	if gen != nil {
 		specs[gen] = genSpec
@@ -931,6 +932,25 @@ func (c *Ctx) c07Totality(r *Report, prefix string) {
 		20, specs, []*ssa.Function{gen, nk})
 }
 
+// prfPlusLenRel: on the domain prf+ delivers exactly the requested number of octets (rule prf-plus: the
+// result is stream[:streamLen], and the nil result is unreachable), so len(PrfPlus(p, s, n)) = n.
+func prfPlusLenRel(f *FA) []Fact {
+	var out []Fact
+	for _, b := range f.Fn.Blocks {
+		for _, ins := range b.Instrs {
+			call, ok := ins.(*ssa.Call)
+			if !ok {
+				continue
+			}
+			if cal := call.Call.StaticCallee(); cal != nil && cal.Name() == "PrfPlus" && len(call.Call.Args) == 3 {
+				d := f.SliceLen(call).add(f.LFOf(call.Call.Args[2]), -1)
+				out = append(out, Fact{L: d}, Fact{L: d.scale(-1)})
+			}
+		}
+	}
+	return out
+}
+
 func (c *Ctx) c08Totality(r *Report, prefix string) {
 	gen := c.Method("security", "ChildSAKey", "GenerateKeyForChildSA")
 	specs := map[*ssa.Function]*domSpec{}
@@ -939,6 +959,7 @@ func (c *Ctx) c08Totality(r *Report, prefix string) {
 			ExactLenParam: -1,
 			// the nonce string may be empty, integrity may be absent
 			NonNil: map[string]bool{"ikeSA": true, "childsaKey": true, "ikeSA.PrfInfo": true, "childsaKey.EncrKInfo": true, "ikeSA.Prf_d": true},
+			Rel:    prfPlusLenRel,
 		}
 	}
 	c.domainTotalRule(r, prefix+"total-on-domain",
